@@ -17,7 +17,7 @@ RULE = {"C08": "generated robot definitions: 1-4 components (own and inherited a
                "falsy value, None, preset on the class, set in __init__, private, generic alias, other component}; robotInit() "
                "runs for real.  Also: components that are StateMachines, two components of one class, falsy component / mode objects, robot attributes that are callable objects (instance with __call__, functools.partial, class object), FMS attached at start-up.  Non-trivial = >=2 components and >=1 of {prefixed, falsy, cross-component, error}; distinct = "
                "hash of the definition."}
-REQUIRED = {"C08": {"private-annotation-on-robot-class": 100, "rel:reannotated-in-subclass": 30, "constructor-annotations-are-strings": 50, "structural-or-mock-instance": 50, "falsy-component-or-mode": 100, "callable-robot-attribute": 50, "rel:plain": 200, "rel:prefixed": 100, "rel:both": 50, "rel:falsy": 100, "rel:subclass": 50, "rel:bool-for-int": 30,
+REQUIRED = {"C08": {"annotated-tunable-left-alone": 50, "class-level-default-replaced-in-createObjects": 200, "private-annotation-on-robot-class": 100, "rel:reannotated-in-subclass": 30, "constructor-annotations-are-strings": 50, "structural-or-mock-instance": 50, "falsy-component-or-mode": 100, "callable-robot-attribute": 50, "rel:plain": 200, "rel:prefixed": 100, "rel:both": 50, "rel:falsy": 100, "rel:subclass": 50, "rel:bool-for-int": 30,
                     "rel:generic-alias": 30, "rel:preset-class": 50, "rel:preset-init": 50, "rel:private": 50, "rel:component-earlier": 50,
                     "rel:component-later": 50, "rel:absent": 50, "rel:wrong-type": 50, "rel:wrong-type-prefixed": 20, "rel:none": 20, "rel:ctor-param": 50,
                     "rel:inherited-annotation": 50, "rel:mode-target": 50, "rel:one-class-two-components": 50, "rel:one-statemachine-class-two-components": 20, "fms-attached-at-startup": 100,
@@ -73,6 +73,9 @@ def make_value(desc):
         return functools.partial(int, desc[1])
     if k == "cls":
         return T[desc[1]]        # the class object itself is the value
+    if k == "tunable":
+        import magicbot
+        return magicbot.tunable(desc[1])     # `speed: float = tunable(0.5)`: a value of its own, never a request to the robot
     if k == "mock":
         from unittest import mock
         return mock.Mock(spec=T[desc[1]])       # a test double: isinstance(mock, T) is True, type(mock) is not T
@@ -114,7 +117,11 @@ def gen_case(rng, uid):
         return f"a{attr_no[0]}"
 
     def place(name, desc):
-        robot_attrs[name] = {"where": rng.choice(["class0", "class1", "create", "create"]), "value": desc}
+        robot_attrs[name] = {"where": rng.choice(["class0", "class1", "create", "create", "class0+create", "class1+create"]), "value": desc}
+        if "+" in robot_attrs[name]["where"]:
+            # a class-level default (`shooter_motor = None`, a placeholder object) that createObjects() replaces: the object
+            # stored on the robot is the one createObjects() put there
+            robot_attrs[name]["stale"] = rng.choice([("lit", None), ("inst", "T2"), ("lit", 0), ("lit", "placeholder")])
 
     def gen_attr(owner, is_ctor=False, others=()):
         """returns attribute spec dict"""
@@ -122,7 +129,7 @@ def gen_case(rng, uid):
         ann = rng.choice(list(GOOD))
         rels = ["plain", "plain", "prefixed", "both", "falsy", "subclass", "bool-for-int", "generic-alias"]
         if not is_ctor:
-            rels += ["preset-class", "preset-init", "private"]
+            rels += ["preset-class", "preset-init", "private", "preset-tunable"]
         if others:
             rels += ["component", "component"]
         if allow_error:
@@ -154,6 +161,11 @@ def gen_case(rng, uid):
             a["preset"] = rng.choice([("lit", 0), ("lit", None), ("lit", "keep"), ("inst", "T2")])
             if rng.random() < 0.5:
                 place(name, rng.choice(GOOD[ann]))
+        elif rel == "preset-tunable":
+            a["rel"] = "preset-class"
+            a["ann"] = "float"
+            a["preset"] = ("tunable", rng.choice([0.5, 0.0, 2.25]))
+            a["is_tunable"] = True
         elif rel == "preset-init":
             a["preset"] = rng.choice([("lit", 0), ("lit", "keep"), ("inst", "T2"), ("lit", False)])
             if rng.random() < 0.5:
@@ -270,6 +282,8 @@ def write_modes(case, root):
             for a in m["attrs"]:
                 if "preset" in a and a["rel"] == "preset-class":
                     f.write(f"    {a['name']}: pi.ann_of({a['ann']!r}) = pi.make_value({tuple(a['preset'])!r})\n")
+                    if a.get("is_tunable"):
+                        f.write(f"    pi.STATE.setdefault('mode_tunables', []).append(({m['name']!r}, {a['name']!r}, {a['preset'][1]!r}))\n")
                 else:
                     f.write(f"    {a['name']}: pi.ann_of({a['ann']!r})\n")
             f.write("    def __init__(self):\n")
@@ -354,7 +368,7 @@ def run_case(acc, case):
         for lst, b, an in ((c["attrs"], body, ann), (c["base_attrs"], base_body, base_ann)):
             for a in lst:
                 an[a["name"]] = a["ann"]
-                if a["rel"] == "preset-class":
+                if a["rel"] == "preset-class" and not a.get("is_tunable"):
                     v = make_value(tuple(a["preset"]))
                     b[a["name"]] = v
                     presets[(cn, a["name"])] = v
@@ -396,6 +410,14 @@ def run_case(acc, case):
         for b in cls.__bases__:
             if b.__name__.startswith("B") and "__annotations__" in b.__dict__:      # the generated base classes only
                 b.__annotations__ = {k: (ann_of(v) if isinstance(v, str) else v) for k, v in b.__annotations__.items()}
+        # annotated tunables are attached now that every annotation of the class resolves (tunable.__set_name__ reads them)
+        for lst, target in ((c["attrs"], cls), (c["base_attrs"], next((b for b in cls.__bases__ if b.__name__.startswith("B")), cls))):
+            for a in lst:
+                if a.get("is_tunable"):
+                    tv = make_value(tuple(a["preset"]))
+                    setattr(target, a["name"], tv)
+                    tv.__set_name__(target, a["name"])
+                    presets[(cn, a["name"])] = tv
         if c["ctor"]:
             real_init = cls.__init__
             params = ", ".join(a["name"] for a in c["ctor"])
@@ -426,10 +448,16 @@ def run_case(acc, case):
             body0[n] = robot_objs[n]
         elif r["where"] == "class1":
             body1[n] = robot_objs[n]
+        elif r["where"] == "class0+create":
+            body0[n] = make_value(tuple(r["stale"]))
+            acc.ev("class-level-default-replaced-in-createObjects")
+        elif r["where"] == "class1+create":
+            body1[n] = make_value(tuple(r["stale"]))
+            acc.ev("class-level-default-replaced-in-createObjects")
 
     def createObjects(self):
         for n, r in case["robot_attrs"].items():
-            if r["where"] == "create":
+            if r["where"].endswith("create"):
                 setattr(self, n, robot_objs[n])
     body0["createObjects"] = createObjects
     body0["teleopPeriodic"] = lambda self: None
@@ -579,6 +607,9 @@ def run_case(acc, case):
                 else:
                     want = presets.get((owner, name), ABSENT)
                     got = getattr(tgt, name, ABSENT)
+                    if type(want).__name__ == "tunable":
+                        acc.ev("annotated-tunable-left-alone")
+                        want = got if got == want._ntdefault else want._ntdefault
                     if want is not ABSENT and got is not want:
                         acc.violation("C08/preset-overwritten", f"{owner}.{name} already had the value {want!r} but now is {got!r}", case, {})
                         return
